@@ -791,13 +791,13 @@ def gen_helper_sub(g, idx, funcs, arr_shapes):
         t = g.pick(['int', 'real'])
         nm = f'sa{k}'
         args.append(nm)
-        decls.append(decl(nm, t, intent='in'))
+        decls.append(decl(nm, t, intent=None if g.p.get('intent_none') and g.chance(30) else 'in'))
         env.vars[nm] = {'type': t, 'dims': None, 'ro': True}
         sig.append((t, None, 'in', nm))
     t = g.pick(['int', 'real'])
     intent = g.pick(['inout', 'out', 'inout'])
     args.append('so')
-    decls.append(decl('so', t, intent=intent))
+    decls.append(decl('so', t, intent=None if g.p.get('intent_none') and intent == 'inout' and g.chance(40) else intent))
     env.vars['so'] = {'type': t, 'dims': None}
     sig.append((t, None, intent, 'so'))
     if intent == 'out':
@@ -806,7 +806,8 @@ def gen_helper_sub(g, idx, funcs, arr_shapes):
     if arr_shapes and g.chance(60):
         at, dims = g.pick(arr_shapes)
         args.append('sarr')
-        decls.append(decl('sarr', at, dims=[list(d) for d in dims], intent='inout'))
+        decls.append(decl('sarr', at, dims=[list(d) for d in dims],
+                          intent=None if g.p.get('intent_none') and g.chance(30) else 'inout'))
         env.vars['sarr'] = {'type': at, 'dims': [list(d) for d in dims]}
         sig.append((at, [list(d) for d in dims], 'inout', 'sarr'))
     sub = dict(g.p)
